@@ -397,3 +397,33 @@ Proof.
   intros ts st H. apply (X tr (init ts) st (inv_watch_init ts) (inv_pool_init ts) (sock_ok_init ts)); [|exact H].
   intros c cn Hc. destruct c; discriminate.
 Qed.
+
+(* ------------------------------------------------------------------ a failed call returns from either select *)
+(* a caller whose channel holds a result can take it whether its request is still queued (first select: registered,
+   not yet handed to Send) or already sent (second select) *)
+Theorem failed_call_can_return : forall g st k cl r,
+  nth_error (callers st) k = Some cl -> box cl = Some r ->
+  (forall c i, pc cl = CStored c i \/ pc cl = CEnq c i ->
+     exists st', step g st (LTake k) = Some st' /\
+                 exists cl', nth_error (callers st') k = Some cl' /\ pc cl' = CRet r).
+Proof.
+  intros g st k cl r Hk Hb c i Hp. cbn [step]. rewrite Hk, Hb.
+  assert (Hw : waiting_at (pc cl) = Some (c, i)) by (destruct Hp as [Hp|Hp]; rewrite Hp; reflexivity).
+  rewrite Hw. eexists. split; [reflexivity|]. proj_simpl.
+  rewrite nth_upd, Nat.eqb_refl, Hk. eexists. split; reflexivity.
+Qed.
+
+(* rangeAndClean fails every registered caller of the connection, queued or sent, and each of them can then return
+   the error at once *)
+Theorem clean_fails_queued_and_sent : forall g st w c cn i k cl,
+  who_pc st w = Some EClean -> who_conn st w = Some c -> nth_error (conns st) c = Some cn ->
+  In (i, k) (ktab cn) -> nth_error (callers st) k = Some cl -> (pc cl = CStored c i \/ pc cl = CEnq c i) ->
+  exists st1 st2, step g st (LCleanTake w) = Some st1 /\ step g st1 (LTake k) = Some st2 /\
+                  exists cl2, nth_error (callers st2) k = Some cl2 /\ pc cl2 = CRet RErr.
+Proof.
+  intros g st w c cn i k cl Hp Hw Hc Hin Hk Hpc.
+  destruct (clean_take_fails g st w c cn i k cl Hp Hw Hc Hin Hk) as (st1 & S1 & cl1 & Hk1 & Hb1 & Hpc1).
+  assert (Hpc' : pc cl1 = CStored c i \/ pc cl1 = CEnq c i) by (rewrite Hpc1; exact Hpc).
+  destruct (failed_call_can_return g st1 k cl1 RErr Hk1 Hb1 c i Hpc') as (st2 & S2 & R2).
+  exists st1, st2. auto.
+Qed.
